@@ -99,7 +99,7 @@ def instances_for(prop, tier, seed):
         add(script='listok', prefix='inflight_partial2', k=k, budget={'faults': ['eof']})
         add(script='one', k=k + 1, budget={'change': 1, 'faults': ['eof']})
         add(script='one', prefix='after_reply', k=k, budget={'faults': ['idleack'], 'tick': 1})
-        add(script='art', k=k + 1, budget={'faults': ['eof']}, step_deliver=True)
+        add(script='art', prefix='inflight', k=k + 1, budget={'faults': ['eof']}, step_deliver=True)
         add(script='one', k=k, budget={'dropclient': 1})
         add(script='none', k=k, budget={'dropclient': 1, 'change': 1})
         add(script='one', prefix='after_reply', k=k, budget={'dropclient': 1, 'tick': 1})
@@ -217,8 +217,8 @@ def judge_c01(obs):
     # every completed request carries exactly the server's reply for it
     for ci, c in enumerate(obs['callers']):
         for req, out in c['results']:
-            if out[0] in ('closed', 'protocol') and (obs['loop_done'] or any(f.startswith('fault') for f in obs['flags'])):
-                continue
+            if out[0] in ('closed', 'protocol') and (any(f.startswith('fault') for f in obs['flags']) or 'dropclient' in obs['steps']):
+                continue            # (without a fault the server's output is well-formed and the connection stays up: no request may fail with it)
             want = expected_txt(req)
             if json.dumps(out) != json.dumps(want):
                 return 'caller %d: request %s resolved with %s, the server answered %s' % (ci, req, out, want)
